@@ -1,7 +1,7 @@
 """Which jobs and extra checks decide which property (the sidecar's table of contents)."""
 import importlib
 
-JOB_MODULES = ["contracts.jobs_basic", "contracts.jobs_multi", "contracts.jobs_classes", "contracts.jobs_context", "contracts.jobs_asynctools", "contracts.jobs_core", "contracts.jobs_lru"]
+JOB_MODULES = ["contracts.jobs_basic", "contracts.jobs_multi", "contracts.jobs_classes", "contracts.jobs_context", "contracts.jobs_asynctools", "contracts.jobs_core", "contracts.jobs_lru", "contracts.jobs_cached_property"]
 CANARY = "contracts.jobs_canary"
 
 _cache = {}
@@ -80,6 +80,13 @@ PROPS = {
                                           "dict / OrderedDict contract of pyvc/odmodel.py; CallKey.from_call replaced by its contract as in C10"],
                 bounded_note=[{"what": "store size visible to the resumed segment", "bound": "interference leaves 0, 1 or 2 entries (symbolic patterns, symbolic maxsize >= 1 or None)"}],
                 explanation="Owicki-Gries / rely-guarantee at the suspension point of __call__: the invariant I = {hits+misses = calls started, misses = invocations of the wrapped function, entries <= maxsize, every stored value was produced for its pattern, patterns distinct} is proved at the suspension (end of segment S1), after the resumed segment for every outcome (value, exception, cancellation) from an arbitrary I-state, and after cache_clear/cache_discard/cache_info; every returned value was produced for an equal pattern. No schedule is enumerated: any interleaving is a sequence of such segments"),
+    "C12": dict(level="proof", canaries=[(CANARY, "canary:max-last-of-ties")],
+                trusted_base=TB_COMMON + ["specification contracts/refs/ref_cached_property.py written from the property (slot = absent / placeholder / value)",
+                                          "Python's attribute lookup: an instance-dict entry shadows the non-data descriptor; `del instance.attr` removes the entry",
+                                          "user lock contract: __aenter__ returns only when unheld and then holds, __aexit__ releases; both may suspend",
+                                          "cooperative scheduling: tasks interleave only at the lock's enter/exit and inside the getter (C17 effect typing)"],
+                bounded_note=[{"what": "interference per awaiter", "bound": "at most two interfering changes of the slot (each an arbitrary allowed state: deleted / new placeholder / value returned by another run) during one await; more changes repeat the same restart step"}],
+                explanation="(a) sequential: every history over {access, await the placeholder later, access+await, del, failing getter, second instance} against the slot specification (consumer loop = cut point: unbounded histories); (b) concurrent, with and without lock: rely-guarantee at every suspension point of _await_impl - the slot becomes any state the invariant allows; obligations: every awaiter receives a value some getter run returned, the lock is released on every exit (value, exception, cancellation), with a lock the getter starts only under the lock and never after a run for the same placeholder completed"),
     "C13": dict(level="proof", canaries=[(CANARY, "canary:filter-yields-before-test")],
                 trusted_base=TB_COMMON + ["reference = contextlib._AsyncGeneratorContextManager of the installed CPython, extracted mechanically on demand (tools/extract_refs.py, drift-checked on every run) and rendered synchronous by fixed textual rules",
                                           "async-generator protocol A3: the generator's answers to anext/athrow/aclose range over {yield, stop, raise the same object, raise a new exception (same or other class), RuntimeError caused by the thrown exception}; a Stop(Async)Iteration never leaves a generator as such (PEP 479/525)"],
